@@ -180,9 +180,33 @@ func c11(repo string, out *fg.Out) error {
 	if !strings.Contains(norm(f.Text(ep.Body)), "policy.Database, measurement, cutoffDate, false,") {
 		return fmt.Errorf("ExecutePolicy: deleteOldFiles is expected to be called with dryRun=false")
 	}
+	// which request field gates the deletion on the HTTP path: the dryRun argument of deleteOldFiles
+	// and the confirmation gate.
 	he, _ := get("handleExecute")
-	if !strings.Contains(norm(f.Text(he.Body)), "policy.Database, measurement, cutoffDate, req.DryRun,") {
-		return fmt.Errorf("handleExecute: deleteOldFiles is expected to be called with req.DryRun")
+	heBody := norm(f.Text(he.Body))
+	dryGate := ""
+	ast.Inspect(he.Body, func(x ast.Node) bool {
+		c, ok := x.(*ast.CallExpr)
+		if !ok || fg.CalleeName(c) != "deleteOldFiles" || len(c.Args) != 6 {
+			return true
+		}
+		switch a := norm(f.Text(c.Args[4])); {
+		case a == "req.DryRun":
+			dryGate = "reqDryRun"
+		case a == "dryRun" && strings.Contains(heBody, "dryRun := !req.Confirm"):
+			dryGate = "notConfirm"
+		case a == "dryRun" && strings.Contains(heBody, "dryRun := req.DryRun"):
+			dryGate = "reqDryRun"
+		default:
+			dryGate = "?" + a
+		}
+		return true
+	})
+	if dryGate == "" || strings.HasPrefix(dryGate, "?") {
+		return fmt.Errorf("handleExecute: the dryRun argument of deleteOldFiles is %q, expected req.DryRun", strings.TrimPrefix(dryGate, "?"))
+	}
+	if dryGate == "reqDryRun" && !strings.Contains(heBody, "if !req.DryRun && !req.Confirm {") {
+		return fmt.Errorf("handleExecute: confirmation gate `if !req.DryRun && !req.Confirm {` not found")
 	}
 	// --- policy validation in handleCreate
 	hc, err := get("handleCreate")
@@ -212,7 +236,11 @@ func c11(repo string, out *fg.Out) error {
 	fmt.Fprintf(w, "def measPrefixTrailingSlash : Bool := %s\n", b(measSlash))
 	fmt.Fprintf(w, "/-- getMeasurementsToProcess: `prefix := %s` -/\n", strings.Join(dp, " + "))
 	fmt.Fprintf(w, "def dbPrefixTrailingSlash : Bool := %s\n", b(dbSlash))
+	fmt.Fprintf(w, "/-- which request field makes POST /:id/execute a dry run (dryRun argument of deleteOldFiles in handleExecute) -/\n")
+	fmt.Fprintf(w, "inductive DryGate | reqDryRun | notConfirm\nderiving DecidableEq, Repr\n")
+	fmt.Fprintf(w, "def dryGate : DryGate := .%s\n", dryGate)
 	fmt.Fprintf(w, "end Arc.Generated.C11\n")
+	out.JSON["dry_gate"] = dryGate
 	out.JSON["comparator"] = cmp
 	out.JSON["condition"] = conds[0]
 	out.JSON["meas_prefix"] = mp
